@@ -294,6 +294,12 @@ where
         match r {
             Ok(()) => Ok(()),
             Err(detail) => {
+                let first = !ctx.stats.borrow().frozen;
+                if first {
+                    // persist the first (unshrunk) failure at once: if shrinking gets stuck on a
+                    // candidate that never returns, the driver still has a failing case to confirm
+                    let _ = std::fs::write(ctx.dir.join(format!("first-failure-{}.json", ctx.idx)), json!({"case": to_json(&case), "detail": detail}).to_string());
+                }
                 ctx.stats.borrow_mut().frozen = true;
                 *last_detail.borrow_mut() = detail.clone();
                 Err(TestCaseError::fail(detail))
@@ -471,6 +477,9 @@ fn replay_in_child(id: &str, file: &Path) -> Result<Option<String>, String> {
 
 pub fn replay_case_main(def: &CheckDef, file: &Path) -> i32 {
     recording_panics();
+    // single cases are always replayed node-bounded (see obs.rs): a search that never consults
+    // its limit becomes a deterministic verdict instead of a hang
+    crate::obs::NODE_MODE.store(std::env::var("VERIF_NODE_MODE").map(|v| v != "0").unwrap_or(true), std::sync::atomic::Ordering::Relaxed);
     let Ok(s) = std::fs::read_to_string(file) else {
         eprintln!("cannot read {}", file.display());
         return 2;
@@ -577,8 +586,22 @@ pub fn driver_main(def: &CheckDef, tier: Tier, seed: u64) -> i32 {
     );
     let mut statuses = vec![];
     let mut timed_out = false;
-    for (i, mut c) in children {
-        loop {
+    // Stall triage: a worker that sits on one case for longer than `stall` is not judged by the
+    // clock. Its case is replayed in a child in node-bounded mode (obs.rs); only a deterministic
+    // verdict of that replay ("more than N nodes without consulting the limit", a panic, an
+    // oracle failure) is reported. If the replay passes or does not finish either, nothing is
+    // concluded from the stall and the run goes on until the global watchdog.
+    let stall = Duration::from_secs(std::env::var("VERIF_STALL_S").ok().and_then(|s| s.parse().ok()).unwrap_or(tier.pick(45, 600)));
+    let mut seen: std::collections::HashMap<u64, (u64, Instant)> = std::collections::HashMap::new();
+    let mut triaged: HashSet<u64> = HashSet::new();
+    let mut last_scan = Instant::now();
+    let mut stall_violation: Option<(PathBuf, String)> = None;
+    let mut pending: Vec<(Value, PathBuf, String, std::process::Child, Instant)> = vec![];
+    let t_replay = Duration::from_secs(tier.pick(150, 900));
+    let mut live: Vec<(u64, std::process::Child)> = children;
+    while !live.is_empty() {
+        let mut still = vec![];
+        for (i, mut c) in live {
             match c.try_wait() {
                 Ok(Some(st)) => {
                     let mut err = String::new();
@@ -587,20 +610,111 @@ pub fn driver_main(def: &CheckDef, tier: Tier, seed: u64) -> i32 {
                         let _ = e.read_to_string(&mut err);
                     }
                     statuses.push((i, st, err));
-                    break;
                 }
-                Ok(None) => {
-                    if t0.elapsed() > budget {
-                        let _ = c.kill();
-                        let _ = c.wait();
-                        timed_out = true;
-                        break;
-                    }
-                    std::thread::sleep(Duration::from_millis(20));
-                }
-                Err(_) => break,
+                Ok(None) => still.push((i, c)),
+                Err(_) => {}
             }
         }
+        live = still;
+        if live.is_empty() {
+            break;
+        }
+        if t0.elapsed() > budget || stall_violation.is_some() {
+            for (_, c) in live.iter_mut() {
+                let _ = c.kill();
+                let _ = c.wait();
+            }
+            for (_, p, _, ch, _) in pending.iter_mut() {
+                let _ = ch.kill();
+                let _ = ch.wait();
+                let _ = std::fs::remove_file(&*p);
+            }
+            timed_out = stall_violation.is_none();
+            break;
+        }
+        // collect finished triage replays
+        let mut keep = vec![];
+        for (case, p, detail0, mut ch, started) in pending.drain(..) {
+            match ch.try_wait() {
+                Ok(Some(st)) => {
+                    let mut out = String::new();
+                    if let Some(mut o) = ch.stdout.take() {
+                        use std::io::Read;
+                        let _ = o.read_to_string(&mut out);
+                    }
+                    let failed = match st.code() {
+                        Some(0) => None,
+                        Some(1) => Some(out.trim().to_string()),
+                        Some(_) => None,
+                        None => Some(format!("crashed with {st:?}")),
+                    };
+                    match failed {
+                        Some(d) if stall_violation.is_none() => {
+                            let detail = format!("{detail0}{d}");
+                            let p = write_replay(id, &case, &detail, "stall");
+                            stall_violation = Some((p, detail));
+                        }
+                        _ => {
+                            eprintln!("node-bounded replay of a stalled case gave no verdict (exit {:?}); nothing concluded from the stall", st.code());
+                            let _ = std::fs::remove_file(&p);
+                        }
+                    }
+                }
+                Ok(None) => {
+                    if started.elapsed() > t_replay {
+                        let _ = ch.kill();
+                        let _ = ch.wait();
+                        eprintln!("node-bounded replay of a stalled case did not finish in {t_replay:?}; nothing concluded from the stall");
+                        let _ = std::fs::remove_file(&p);
+                    } else {
+                        keep.push((case, p, detail0, ch, started));
+                    }
+                }
+                Err(_) => {}
+            }
+        }
+        pending = keep;
+        if last_scan.elapsed() > Duration::from_secs(2) {
+            last_scan = Instant::now();
+            for (i, _) in live.iter() {
+                let cur = dir.join(format!("current-{i}.json"));
+                let Ok(text) = std::fs::read_to_string(&cur) else { continue };
+                let h = digest(&text);
+                let e = seen.entry(*i).or_insert((h, Instant::now()));
+                if e.0 != h {
+                    *e = (h, Instant::now());
+                    continue;
+                }
+                if e.1.elapsed() < stall || triaged.contains(&h) || pending.len() >= 4 || triaged.len() >= 12 {
+                    continue;
+                }
+                let Ok(mut case) = serde_json::from_str::<Value>(&text) else { continue };
+                triaged.insert(h);
+                let mut detail0 = format!("worker {i} did not get past this case within {stall:?}; node-bounded replay: ");
+                // a worker that already found a failure and is stuck while shrinking it: confirm the
+                // unshrunk failure instead
+                if let Some(ff) = std::fs::read_to_string(dir.join(format!("first-failure-{i}.json"))).ok().and_then(|s| serde_json::from_str::<Value>(&s).ok()) {
+                    case = ff["case"].clone();
+                    detail0 = format!("worker {i} found this failing case and did not finish shrinking it within {stall:?}; replay of the unshrunk case: ");
+                }
+                eprintln!("worker {i} has been on one case for {:?}: replaying it node-bounded", e.1.elapsed());
+                let p = write_replay(id, &case, &detail0, "stall");
+                if let Ok(ch) = Command::new(exe()).args(["replay-case", id, p.to_str().unwrap()]).stdout(Stdio::piped()).stderr(Stdio::null()).spawn() {
+                    pending.push((case, p, detail0, ch, Instant::now()));
+                }
+            }
+        }
+        std::thread::sleep(Duration::from_millis(20));
+    }
+    for (_, p, _, ch, _) in pending.iter_mut() {
+        let _ = ch.kill();
+        let _ = ch.wait();
+        let _ = std::fs::remove_file(&*p);
+    }
+    if let Some(v) = stall_violation {
+        violations.push(v);
+        // the remaining workers were stopped: their partial results are not merged
+        statuses.clear();
     }
     if timed_out {
         eprintln!("watchdog: worker exceeded {budget:?}; inconclusive (not a violation)");
